@@ -96,6 +96,7 @@ var vSigLensFull = []int{0, 1, 2, 3, 62, 63, 64, 65, 66, 94, 96, 98, 130, 132, 1
 // (a)+(c)+(d): Verify on arbitrary objects never panics, and returns true only for
 // the ideal signature of exactly this Sig_structure under exactly this key.
 func VerifC13_VerifyTotalAndSound() {
+	verif.Expect("verified")
 	verif.NoPanic()
 	verif.Bound("C13a", "key kind in {P-256, P-384, RSA-2048, RSA-3072, nil, non-key}; protected alg absent / any int64 / text; signature length in {0,1,2,64,66,96,256} (quick) / {0,1,2,3,62..66,94,96,98,130,132,140,256,384} (thorough); payload nil, empty or 2 bytes; external data nil or 1 (2) bytes; all contents symbolic")
 	kind := verif.Choose("kind", vKinds)
@@ -146,6 +147,7 @@ func VerifC13_VerifyTotalAndSound() {
 		digest := verif.HashOf(h, vRefStructure("Signature1", vRefProtected(alg), aad, payload))
 		verif.Assert(len(sig) == verif.SigLen(key), "Verify true requires a signature of exactly the key's length")
 		verif.Assert(verif.BytesEq(sig, verif.IdealSig(scheme, key, digest)), "Verify true only for the signature of this Sig_structure (protected header, external data, payload) under this key")
+		verif.Reached("verified")
 	}
 	verif.Reached("end")
 }
